@@ -547,6 +547,15 @@ impl<'a> Gen<'a> {
         for _ in 0..n {
             let prev_list = matches!(blocks.last(), Some(Blk::List(..)));
             let b = match self.rng.below(10) {
+                // headings inside quotes: levels restart there (a well-nested run of 1, 2)
+                4 if self.p.headings && self.rng.chance(1, 2) => {
+                    let l = if blocks.iter().any(|b| matches!(b, Blk::Heading(..))) { self.rng.range(1, 2) as u8 } else { 1 };
+                    let h = self.heading(l);
+                    match h {
+                        Blk::Heading(l, v, _) => Blk::Heading(l, v, HStyle::Atx),
+                        other => other,
+                    }
+                }
                 0..=4 => self.para(),
                 5 if self.p.code => self.code(false),
                 6 if self.p.lists && depth < self.p.max_depth && !prev_list => self.list(depth + 1),
